@@ -72,6 +72,13 @@ func c12Gens() []c12Gen {
 	add("cid_limit", func(g *c12Gen, v int64) { g.CIDLimit = v }, -1, 2, 3, 4, 5, 6, 8)
 	add("datagram", func(g *c12Gen, v int64) { g.Datagram = v }, -1, 0, 100, 1200, 65535)
 	add("idle", func(g *c12Gen, v int64) { g.Idle = v }, -1, 2000, 29000, 31000, 60000)
+	// the smallest non-zero value of every count and window (appended: indices into this list are part of replay files)
+	add("sd_bidi_local", func(g *c12Gen, v int64) { g.SDBidiLocal = v }, 1)
+	add("sd_bidi_remote", func(g *c12Gen, v int64) { g.SDBidiRemote = v }, 1)
+	add("sd_uni", func(g *c12Gen, v int64) { g.SDUni = v }, 1)
+	add("max_data", func(g *c12Gen, v int64) { g.MaxData = v }, 1)
+	add("streams_bidi", func(g *c12Gen, v int64) { g.StreamsBidi = v }, 1)
+	add("streams_uni", func(g *c12Gen, v int64) { g.StreamsUni = v }, 1)
 	return out
 }
 
@@ -141,7 +148,8 @@ var c12UserConfs = []struct {
 	}},
 }
 
-var c12Scenarios = []string{"sd-bidi-local", "sd-bidi-remote", "sd-uni", "max-data", "streams-bidi", "streams-uni", "cids", "datagram", "idle", "own-record", "idle-send"}
+var c12Scenarios = append([]string{"sd-bidi-local", "sd-bidi-remote", "sd-uni", "max-data", "streams-bidi", "streams-uni", "cids", "datagram", "idle", "own-record", "idle-send"},
+	c12OverScenarios...) // over-*: a peer that goes one beyond the advertised limit (c12_over_test.go)
 
 // The idle-send scenario: the advertised max_idle_timeout counts from the last packet the
 // client received or, if later, from the first ack-eliciting packet it sent since (RFC 9000,
@@ -322,7 +330,7 @@ func c12Run(t *testing.T, cfg c12Config) c12Outcome {
 		} else {
 			spec = c12Gens()[cfg.Gen].spec()
 		}
-		d, _, _ := w.NewDialer(sim.ClientKind{Name: name, U: true, Spec: func() *quic.QUICSpec { return spec }})
+		d, cep, _ := w.NewDialer(sim.ClientKind{Name: name, U: true, Spec: func() *quic.QUICSpec { return spec }})
 		accepted := make(chan *quic.Conn, 1)
 		go func() {
 			c, err := ln.Accept(ctx)
@@ -757,6 +765,11 @@ func c12Run(t *testing.T, cfg c12Config) c12Outcome {
 				break
 			}
 			alive("after the exchange that followed the silence")
+		default:
+			if !c12IsOver(scen) {
+				t.Fatalf("unknown scenario %q", scen)
+			}
+			out.class = c12RunOver(ctx, w, cep.LocalAddr(), conn, sc, scen, tag, adv, fail)
 		}
 		if out.class == "" {
 			out.class = tag
@@ -875,7 +888,8 @@ func TestVerifC12(t *testing.T) {
 		for gi, g := range gens {
 			for si, sc := range c12Scenarios {
 				rel := gi == 0
-				for _, key := range []string{"sd_bidi_local:sd-bidi-local", "sd_bidi_remote:sd-bidi-remote", "sd_uni:sd-uni", "max_data:max-data", "streams_bidi:streams-bidi", "streams_uni:streams-uni", "cid_limit:cids", "datagram:datagram", "idle:idle", "datagram:own-record", "idle:idle-send"} {
+				for _, key := range []string{"sd_bidi_local:sd-bidi-local", "sd_bidi_remote:sd-bidi-remote", "sd_uni:sd-uni", "max_data:max-data", "streams_bidi:streams-bidi", "streams_uni:streams-uni", "cid_limit:cids", "datagram:datagram", "idle:idle", "datagram:own-record", "idle:idle-send",
+					"sd_bidi_local:over-sd-bidi-local", "sd_bidi_remote:over-sd-bidi-remote", "sd_uni:over-sd-uni", "max_data:over-max-data", "streams_bidi:over-streams-bidi", "streams_uni:over-streams-uni", "datagram:over-datagram"} {
 					p := strings.SplitN(key, ":", 2)
 					if strings.HasPrefix(g.Name, "gen:"+p[0]+"=") && p[1] == sc {
 						rel = true
@@ -885,7 +899,7 @@ func TestVerifC12(t *testing.T) {
 					continue
 				}
 				for ci := range c12UserConfs {
-					if gi != 0 && ci > 0 && !e.Thorough() && ci != 1 && ci != 4 {
+					if gi != 0 && ci > 0 && !e.Thorough() && ci != 1 && ci != 4 && !c12IsOver(sc) { // (the over-* scenarios are short: every user Config in both tiers)
 						continue
 					}
 					for _, v := range variants(sc) {
